@@ -1,6 +1,14 @@
+import os, sys
+sys.path.insert(0, os.path.dirname(os.path.dirname(os.path.abspath(__file__))))
 PROP = dict(
     drivers=[dict(cmd="drv-registry", family="registry", variant="map", tags="verif", search_thorough=False),
-             dict(cmd="drv-registry", family="registry", variant="gcopt", tags="verif gc_opt", search_thorough=False)],
+             dict(cmd="drv-registry", family="registry", variant="gcopt", tags="verif gc_opt", search_thorough=False),
+             # the registry as the event loop uses it (added by the orchestrator after a missed seed: a failed
+             # registration must not leave an entry behind): real engine runs incl. injected epoll_ctl(ADD) failures,
+             # judged here only by the registry-related oracles
+             dict(cmd="drv-loop", family="loop", variant="regfault", shrink=False, args=["-focus", "fault", "-n", "25"],
+                  sites=["^count-connections$", "^lifecycle$", "^loop-stuck$", "^engine-start$"],
+                  unix_swap=__import__("loopfam").LOOP_SWAP, timeout=dict(quick=600, thorough=3000))],
     rule="a case is one registry driven by a generated op sequence (add / del first-middle-last-random by position / "
          "re-register the just-removed fd / iterate read-only, shutdown, remove-some, early stop / checkpoints that read "
          "getConn for every fd ever used, loadCount and each live conn's stored (row,column)); populations 0..8 (160 cases), "
